@@ -4,6 +4,8 @@ import (
 	"encoding/json"
 	"fmt"
 	"math"
+	"net/http"
+	"net/http/httptest"
 	"sort"
 	"strconv"
 	"strings"
@@ -13,6 +15,7 @@ import (
 
 	"github.com/prometheus/client_golang/prometheus"
 	dto "github.com/prometheus/client_model/go"
+	"github.com/prometheus/common/expfmt"
 	"github.com/tsenart/vegeta/v12/internal/zzverif/vh"
 	vegeta "github.com/tsenart/vegeta/v12/lib"
 	"github.com/tsenart/vegeta/v12/lib/prom"
@@ -32,6 +35,10 @@ type c20Res struct {
 type c20Case struct {
 	Results    []c20Res
 	Goroutines int // 1 = sequential
+	// Scrapes (sequential only): after this many results have been observed the metrics are scraped through
+	// the HTTP handler (prom.NewHandler, what `vegeta attack -prometheus-addr` serves); every scrape must show
+	// exactly the results observed so far
+	Scrapes []int `json:",omitempty"`
 }
 
 type c20Key struct{ method, url, status string }
@@ -51,17 +58,9 @@ func labelsOf(m *dto.Metric) map[string]string {
 	return out
 }
 
-func runC20(c c20Case) error {
-	pm := prom.NewMetrics()
-	reg := prometheus.NewRegistry()
-	if err := pm.Register(reg); err != nil {
-		return fmt.Errorf("register: %v", err)
-	}
-	results := make([]*vegeta.Result, len(c.Results))
+func c20Model(rs []c20Res) map[c20Key]*c20Agg {
 	model := map[c20Key]*c20Agg{}
-	for i, r := range c.Results {
-		results[i] = &vegeta.Result{Method: r.Method, URL: r.URL, Code: r.Code, Error: r.Err, BytesIn: r.In, BytesOut: r.Out,
-			Latency: time.Duration(r.Latency), Seq: uint64(i), Timestamp: time.Unix(int64(i), 0)}
+	for _, r := range rs {
 		k := c20Key{r.Method, r.URL, strconv.Itoa(int(r.Code))}
 		a := model[k]
 		if a == nil {
@@ -77,10 +76,62 @@ func runC20(c c20Case) error {
 			a.fails[r.Err]++
 		}
 	}
+	return model
+}
+
+// c20Scrape fetches the metrics through the HTTP handler, in the text exposition format.
+func c20Scrape(h http.Handler) ([]*dto.MetricFamily, error) {
+	rec := httptest.NewRecorder()
+	h.ServeHTTP(rec, httptest.NewRequest("GET", "/metrics", nil))
+	if rec.Code != 200 {
+		return nil, fmt.Errorf("scrape: status %d: %.300s", rec.Code, rec.Body.String())
+	}
+	var tp expfmt.TextParser
+	byName, err := tp.TextToMetricFamilies(rec.Body)
+	if err != nil {
+		return nil, fmt.Errorf("scrape does not parse: %v", err)
+	}
+	var fams []*dto.MetricFamily
+	for _, f := range byName {
+		fams = append(fams, f)
+	}
+	return fams, nil
+}
+
+func runC20(c c20Case) error {
+	pm := prom.NewMetrics()
+	reg := prometheus.NewRegistry()
+	if err := pm.Register(reg); err != nil {
+		return fmt.Errorf("register: %v", err)
+	}
+	results := make([]*vegeta.Result, len(c.Results))
+	for i, r := range c.Results {
+		results[i] = &vegeta.Result{Method: r.Method, URL: r.URL, Code: r.Code, Error: r.Err, BytesIn: r.In, BytesOut: r.Out,
+			Latency: time.Duration(r.Latency), Seq: uint64(i), Timestamp: time.Unix(int64(i), 0)}
+	}
 	g := c.Goroutines
 	if g <= 1 {
-		for _, r := range results {
-			pm.Observe(r)
+		var handler http.Handler
+		scrapeAt := map[int]bool{}
+		for _, at := range c.Scrapes {
+			scrapeAt[at] = true
+		}
+		if len(c.Scrapes) > 0 {
+			handler = prom.NewHandler(reg, time.Unix(1, 0))
+		}
+		for i := 0; i <= len(results); i++ {
+			if handler != nil && (scrapeAt[i] || i == len(results)) {
+				fams, err := c20Scrape(handler)
+				if err != nil {
+					return err
+				}
+				if err := c20Compare(fams, c20Model(c.Results[:i])); err != nil {
+					return fmt.Errorf("scrape of the HTTP handler after %d of %d results (scrapes after %v): %v", i, len(results), c.Scrapes, err)
+				}
+			}
+			if i < len(results) {
+				pm.Observe(results[i])
+			}
 		}
 	} else {
 		var wg sync.WaitGroup
@@ -102,13 +153,19 @@ func runC20(c c20Case) error {
 	if err != nil {
 		return fmt.Errorf("gather: %v", err)
 	}
+	return c20Compare(fams, c20Model(c.Results))
+}
+
+var c20Names = map[string]bool{"request_bytes_in": true, "request_bytes_out": true, "request_seconds": true, "request_fail_count": true}
+
+func c20Compare(fams []*dto.MetricFamily, model map[c20Key]*c20Agg) error {
 	byName := map[string]*dto.MetricFamily{}
 	for _, f := range fams {
 		byName[f.GetName()] = f
 	}
-	if len(c.Results) == 0 {
+	if len(model) == 0 {
 		for _, f := range fams {
-			if len(f.GetMetric()) > 0 {
+			if c20Names[f.GetName()] && len(f.GetMetric()) > 0 {
 				return fmt.Errorf("nothing observed but %s has %d series", f.GetName(), len(f.GetMetric()))
 			}
 		}
@@ -268,6 +325,9 @@ func TestC20Prom(t *testing.T) {
 			}
 			c.Results = append(c.Results, r)
 		}
+		if c.Goroutines == 1 && n > 0 && rapid.IntRange(0, 2).Draw(t, "scraped") == 0 {
+			c.Scrapes = rapid.SliceOfN(rapid.IntRange(0, n), 1, 4).Draw(t, "scrapes")
+		}
 		sets := map[string]bool{}
 		fails := 0
 		for _, r := range c.Results {
@@ -280,6 +340,9 @@ func TestC20Prom(t *testing.T) {
 		labels := []string{"sequential"}
 		if c.Goroutines > 1 {
 			labels = []string{"concurrent"}
+		}
+		if len(c.Scrapes) > 0 {
+			labels = append(labels, "scraped-in-between")
 		}
 		sig, _ := json.Marshal(c)
 		vh.Case("C20.prom", string(sig), nt, labels...)
